@@ -34,6 +34,7 @@ Record st := mkSt {
 
 Definition init : st := mkSt false [] [] [] [] 0 0.
 
+
 Inductive out := OReply (err : N) | OClose (code : N) | OHandler (name : N).
 
 Definition memN (x : N) (l : list N) : bool := existsb (N.eqb x) l.
@@ -137,12 +138,21 @@ Definition enqueue (g : cfg) (s : st) (size : N) : st * list out :=
   let s1 := mkSt false (chans s) (resv s) (mpend s) (mpag s) (next s) (q s + size) in
   if (0 <? g_maxq g) && (g_maxq g <? q s1) then close s1 3008 else (s1, []).
 
+(* connectCmd: OnConnecting may return server-side subscriptions; more of them than the limit
+   disconnects with 3505 before any is created (note the strict comparison) *)
+Definition start (g : cfg) (names : list N) : st * list out :=
+  if (0 <? g_limit g) && (g_limit g <? N.of_nat (length names))
+  then (mkSt true [] [] [] [] 0 0, [OClose 3505])
+  else (mkSt false names [] [] [] 0 0, []).
+
 Inductive label :=
 | LSub (n len : N) (rt : route) (sc : script)
 | LComplete (tok : N) (ok : bool)
 | LSrvSub (n : N)
 | LUnsub (n : N)
 | LMapNext (n : N)
+| LUnsubRace (tok : N) (ok : bool)   (* an unsubscribe command arrives while the subscribe callback [tok] is
+                                      held: it waits on the subscribing gate, the application answers, it proceeds *)
 | LEnqueue (size : N).
 
 Section Step.
@@ -155,6 +165,16 @@ Section Step.
     | LSrvSub n => Some (srv_sub g s n)
     | LUnsub n => unsub_cmd s n
     | LMapNext n => map_next s n
+    | LUnsubRace tok ok =>
+        match take tok (resv s) with
+        | None => None
+        | Some (n, _) =>
+            let '(s1, o1) := compl g s tok ok in
+            match unsub_cmd s1 n with
+            | Some (s2, o2) => Some (s2, o1 ++ o2)
+            | None => None
+            end
+        end
     | LEnqueue size => Some (enqueue g s size)
     end.
   Fixpoint trace_gen (g : cfg) (s : st) (ls : list label) : option (list (list out * st)) :=
